@@ -124,6 +124,26 @@ def run_unit(root, module, prop, tier, seed, rebaseline=False):
                     rec["assumptions"] = scan_assumptions(text)
         except Exception:
             pass
+    if r["status"] == "compile-error":
+        # the helper has no spec form (or was not found that way): replace its calls by its body, when that is meaning-preserving
+        try:
+            u3, helpers = _inline_helpers(unit, root, r)
+            if u3 is not None:
+                text3, meta3 = gen.generate(u3, root, rules)
+                with open(path, "w") as f:
+                    f.write(text3)
+                r3 = verus.run(path, unit.verus_args, timeout=900 if tier == "thorough" else 420)
+                if r3["status"] != "compile-error":
+                    text, meta, r = text3, meta3, r3
+                    rec["inlined_helpers"] = helpers
+                    rec["items"] = meta["items"]
+                    rec["rewrites"] = meta["rewrites"]
+                    rec["assumptions"] = scan_assumptions(text)
+                else:
+                    with open(path, "w") as f:
+                        f.write(text)
+        except Exception:
+            pass
     attempts = [r]
     # retry policy: rlimit / flaky -> one retry with larger rlimit and a different seed
     real_fail = any((not f["success"]) and not f["function"].endswith(CANARY) for f in r.get("functions", []))
@@ -240,6 +260,113 @@ def _auto_helpers(unit, root, r):
     items = list(unit.items)
     k = next((i for i, it in enumerate(items) if isinstance(it, gen.Fn)), len(items))
     u2.items = items[:k] + new_items + items[k:]
+    return u2, names
+
+
+def _find_helper(unit, name):
+    """the unique definition of free function / method `name` in the files the unit's items come from (and their siblings): (file, container) or None"""
+    files = []
+    for it in unit.items:
+        f = getattr(it, "file", None)
+        if f and f not in files:
+            files.append(f)
+    repo = os.environ.get("VERIF_REPO", "/repo")
+    extra = []
+    for f in list(files):
+        dname = os.path.dirname(os.path.join(repo, f))
+        if os.path.isdir(dname):
+            for fn_ in sorted(os.listdir(dname)):
+                rel = os.path.join(os.path.dirname(f), fn_)
+                if fn_.endswith(".rs") and rel not in files and rel not in extra:
+                    extra.append(rel)
+    found = []
+    for f in files + extra:
+        try:
+            src = gen.load_source(f)
+        except Exception:
+            continue
+        for mt in re.finditer(r"(?<![A-Za-z0-9_])fn\s+" + re.escape(name) + r"\b", src.m):
+            cont = None
+            for hdr, b, e in src.impl_blocks():
+                if b < mt.start() < e:
+                    mh = re.match(r"impl(?:<[^>]*>)?\s+(?:[\w:]+\s+for\s+)?([A-Za-z_]\w*)", hdr)
+                    cont = mh.group(1) if mh else None
+            found.append((f, cont))
+    return found[0] if len(found) == 1 else None
+
+
+def _inline_helpers(unit, root, r):
+    """Second fallback for a call to a function the unit does not contain (a helper a change introduced), when the helper has no spec form:
+    the call is replaced, mechanically, by the helper's body as a block — `h(a, b)` becomes `{ let p: P = a; let q: Q = b; BODY }` — in every
+    function item of the unit.  Meaning-preserving for a FREE, non-recursive function whose body has no `return` and no `?` (both would leave the
+    caller instead of the helper); anything else is refused.  Returns (new_unit, [names]) or (None, [])."""
+    import copy as _copy
+    from vlib.rsitems import mask, match_delim
+    from vlib.cps import split_top
+    names = []
+    for d in r.get("diagnostics", []):
+        if d["level"] != "error":
+            continue
+        mt = MISSING_RE[0].search(d["msg"])
+        if mt and mt.group(1) not in names:
+            names.append(mt.group(1))
+    if not names:
+        return None, []
+    helpers = {}
+    for name in names:
+        hit = _find_helper(unit, name)
+        if not hit or hit[1] is not None:
+            return None, []
+        src = gen.load_source(hit[0])
+        s0, b0, e0 = src.find_fn(name, None)
+        sig, body = src.text[s0:b0], src.text[b0 + 1:e0]
+        mb = mask(body)
+        if re.search(r"\breturn\b", mb) or "?" in mb or re.search(r"\b" + re.escape(name) + r"\s*\(", mb):
+            return None, []
+        mg = re.search(r"fn\s+" + re.escape(name) + r"\s*(<[^>(]*>)?\s*\(", sig)
+        if not mg or (mg.group(1) and re.search(r"[A-Za-z]", re.sub(r"'\w+", "", mg.group(1)))):
+            return None, []          # generic over types: refused
+        op = sig.index("(", mg.start())
+        cl = match_delim(mask(sig), op)
+        params = []
+        for part in split_top(sig[op + 1:cl]):
+            mp = re.fullmatch(r"(?:mut\s+)?([A-Za-z_]\w*)\s*:\s*(.+)", part, re.S)
+            if not mp or "self" == mp.group(1):
+                return None, []
+            params.append((("mut " if part.startswith("mut ") else "") + mp.group(1), re.sub(r"'\w+\s*", "", mp.group(2)).strip()))
+        helpers[name] = (hit[0], params, body)
+
+    def make(name):
+        f, params, body = helpers[name]
+
+        def inline_calls(mt):
+            text = mt.group(0)
+            while True:
+                m = mask(text)
+                hits = [x for x in re.finditer(r"(?<![\w\.:])" + re.escape(name) + r"\s*\(", m) if not re.search(r"\bfn\s+$", m[:x.start()])]
+                if not hits:
+                    return text
+                x = hits[-1]
+                op = x.end() - 1
+                cl = match_delim(m, op)
+                args = split_top(text[op + 1:cl])
+                if len(args) != len(params):
+                    raise AnchorLost(f"call of helper {name} with {len(args)} arguments, {len(params)} parameters")
+                lets = " ".join(f"let {pn}: {pt} = ({a});" for (pn, pt), a in zip(params, args))
+                text = text[:x.start()] + "{ " + lets + " " + body.strip() + " }" + text[cl + 1:]
+        inline_calls.__doc__ = (f"every call `{name}(..)` is replaced by the body of {f}::{name} as a block with its parameters let-bound to the arguments "
+                                f"(free, non-recursive helper without `return` / `?`: the call and the block mean the same)")
+        return inline_calls
+    u2 = _copy.copy(unit)
+    items = []
+    for it in unit.items:
+        if isinstance(it, gen.Fn) and not it.contract_only:
+            it2 = _copy.copy(it)
+            it2.pre_rewrites = [(re.compile(r"(?s)\A.*\Z"), make(n), "*") for n in names] + list(it.pre_rewrites or [])
+            items.append(it2)
+        else:
+            items.append(it)
+    u2.items = items
     return u2, names
 
 
